@@ -5,6 +5,7 @@ import (
 	"fmt"
 
 	"github.com/mutagen-io/mutagen/pkg/selection"
+	"github.com/mutagen-io/mutagen/pkg/synchronization"
 	"github.com/mutagen-io/mutagen/pkg/url"
 )
 
@@ -42,6 +43,18 @@ func (s *CreationSpecification) ensureValid() error {
 	// Verify that the beta-specific configuration is valid.
 	if err := s.ConfigurationBeta.EnsureValid(true); err != nil {
 		return fmt.Errorf("invalid beta-specific configuration: %w", err)
+	}
+
+	// Verify that the effective configuration of each endpoint (the session
+	// configuration with the endpoint-specific configuration merged on top) is
+	// valid in the way that endpoint initialization will validate it. The
+	// endpoint-specific checks above can't do this on their own because they
+	// don't know the effective permissions mode.
+	if err := synchronization.MergeConfigurations(s.Configuration, s.ConfigurationAlpha).EnsureValid(false); err != nil {
+		return fmt.Errorf("invalid merged alpha configuration: %w", err)
+	}
+	if err := synchronization.MergeConfigurations(s.Configuration, s.ConfigurationBeta).EnsureValid(false); err != nil {
+		return fmt.Errorf("invalid merged beta configuration: %w", err)
 	}
 
 	// Verify that the name is valid.
